@@ -1,17 +1,18 @@
 """C16 Code is treated as unreachable or pointless only when it really is."""
 from pyvc.tables import run_gen
-from contracts import x_has_side_effect, x_is_blocking, c_blocking
+from contracts import x_has_side_effect, x_is_blocking, c_blocking, c_safe_callables
 from standins import c16_exec
 
 
 def units():
-    return c_blocking.UNITS
+    return c_blocking.UNITS + c_safe_callables.UNITS
 
 
 def extra(tier, seed):
     both = tier == "thorough"
     return [run_gen("core.has_side_effect", ("C16", "C07"), x_has_side_effect.generate, both),
-            run_gen("core.is_blocking", ("C16",), x_is_blocking.generate, both)]
+            run_gen("core.is_blocking", ("C16",), x_is_blocking.generate, both),
+            run_gen("parsing.safe_callable_names/guards", ("C16",), c_safe_callables.gen_guards, both)]
 
 
 def standins(tier, seed):
@@ -25,8 +26,12 @@ META = {
                    "field has a side effect; control-flow statements and imports always have one; unknown node types default to True. For is_blocking: each "
                    "return path (leaf table, If with unknown / constant test, While, For, With, default) implies that the statement cannot complete normally, "
                    "from control-flow axioms taken from the language reference; _loop_may_be_left (worklist) equals the recursive definition of 'a "
-                   "break/continue of this very loop occurs in the body' (loop invariant, partial correctness). Bounded part (NOT proof): the local "
-                   "conditions (binding, call whitelist), safe-callable inference and the consumer rules are checked by executing enumerated statement shapes "
+                   "break/continue of this very loop occurs in the body' (loop invariant, partial correctness). parsing.safe_callable_names: the loop that "
+                   "collects the statements deciding whether a call is pointless inspects every statement up to and including the first blocking one, "
+                   "a plain return excepted (loop invariant over the real slice, is_blocking uninterpreted), and the real function refuses each kind "
+                   "of ambiguous definition (17 representative modules, evaluated). The emptiness test of is_blocking's For branch is the real "
+                   "expression evaluated on 27 kinds of iterable. Bounded part (NOT proof): the local "
+                   "conditions (binding, call whitelist), safe-callable inference (536 callee programs) and the consumer rules are checked by executing enumerated statement shapes "
                    "under all valuations with a trace hook.",
     "trusted_base": ["z3 5.1", "pyvc executor and branch extractors", "control-flow axioms in contracts/x_is_blocking.py (spec)", "evaluated-fields table in contracts/x_has_side_effect.py (spec)"],
     "assumptions": ["context managers do not suppress exceptions (the obligation without this assumption is refuted: known finding F-16h)", "no python -O (asserts run)",
